@@ -435,7 +435,9 @@ namespace occa {
 
       const std::string identifier = str();
 
-      int type = shallowPeek();
+      // An encoding prefix is directly followed by the quote:
+      //   [u8"a"] is one string but [u8 "a"] is an identifier and a string
+      const char nextChar = *fp.start;
       popAndRewind();
 
       // sizeof, new, delete, throw
@@ -444,14 +446,14 @@ namespace occa {
       };
 
       // [u8R]"foo" or [u]'foo'
-      if (type & tokenType::string) {
+      if (nextChar == '"') {
         const int encoding = getStringEncoding(identifier);
         if (encoding) {
           return (tokenType::string |
                   (encoding << tokenType::encodingShift));
         }
       }
-      if (type & tokenType::char_) {
+      if (nextChar == '\'') {
         const int encoding = getCharacterEncoding(identifier);
         if (encoding) {
           return (tokenType::char_ |
